@@ -19,6 +19,14 @@ func Main(args []string) int {
 		return cmdVerify(args[1:])
 	case "check":
 		return cmdCheck(args[1:])
+	case "keys":
+		v, err := Load(args[1], []string{"."}, nil)
+		if err != nil {
+			fmt.Println(err)
+			return 2
+		}
+		v.DumpKeys(args[2])
+		return 0
 	}
 	fmt.Fprintln(os.Stderr, "unknown command", args[0])
 	return 2
@@ -32,9 +40,14 @@ func cmdVerify(args []string) int {
 	timeout := fs.Duration("timeout", 10*time.Second, "per-query timeout")
 	dump := fs.String("dump", "", "directory to dump failed queries into")
 	verbose := fs.Bool("v", false, "verbose")
+	dirFlag := fs.String("dir", "", "load this directory (a rendered fixture) instead of -repo/-pkgs")
 	only := fs.String("only", "", "only solve obligations whose name contains this substring")
 	fs.Parse(args)
-	v, err := Load(*repo, strings.Split(*pkgs, ","), nil)
+	loadDir, loadPkgs := *repo, strings.Split(*pkgs, ",")
+	if *dirFlag != "" {
+		loadDir, loadPkgs = *dirFlag, []string{"."}
+	}
+	v, err := Load(loadDir, loadPkgs, nil)
 	if err != nil {
 		fmt.Fprintln(os.Stderr, "load:", err)
 		return 2
@@ -66,6 +79,9 @@ func cmdVerify(args []string) int {
 	var results []*FuncResult
 	for _, k := range keys {
 		fns := v.FindFunctions(k)
+		if len(fns) == 0 && *dirFlag != "" {
+			fns = v.FindFunctions(v.Pkgs[0].PkgPath + "." + k)
+		}
 		if len(fns) == 0 {
 			fmt.Printf("NOT FOUND %s\n", k)
 			continue
@@ -107,7 +123,7 @@ func cmdVerify(args []string) int {
 				}
 			} else {
 				bad++
-				fmt.Printf("  FAIL %s: %s  -- %s %s\n", o.Name, o.Res.Status, o.Text, strings.Join(o.Res.Tried, " "))
+				fmt.Printf("  FAIL %s: %s  -- %s [%s] %s\n", o.Name, o.Res.Status, o.Text, o.Pos, strings.Join(o.Res.Tried, " "))
 				if *dump != "" {
 					fmt.Printf("       query: %s\n", o.DumpQuery(*dump))
 				}
